@@ -1,6 +1,7 @@
 import JunoModel.C07.Proofs
 import JunoModel.C07.ProofsBlob
 import JunoModel.C07.ProofsVal
+import JunoModel.C07.ProofsBin
 /-!
 C07 — property theorems (statements only; helper lemmas are in `Proofs*.lean`).
 Every theorem in this module is an obligation listed in evidence/C07.json with its axioms.
@@ -171,12 +172,17 @@ theorem value_roundtrip (cfg : DecCfg) (t : GoType) (v : GoVal) (hok : okType t 
     ∃ c, encodeVal t v = some c ∧ decodeVal cfg t c = some v :=
   rt_val cfg t v hok hw
 
-/-- The same down to the stored bytes. -/
+/-- The same down to the stored bytes: `Unmarshal (Marshal v) = v`. `fitsVal v`: every length and
+integer in `v` is below 2^64 (what CBOR can express; true of any value in memory). -/
 theorem value_roundtrip_bytes (cfg : DecCfg) (t : GoType) (v : GoVal) (hok : okType t = true)
-    (hw : wt cfg t v = true) :
-    ∃ c, encodeVal t v = some c ∧ marshalVal t v = some c.encode ∧
-      (c.wf = true → unmarshalVal cfg t c.encode = some v) :=
-  rt_bytes cfg t v hok hw
+    (hw : wt cfg t v = true) (hf : fitsVal v = true) :
+    ∃ bs, marshalVal t v = some bs ∧ unmarshalVal cfg t bs = some v :=
+  rt_bytes_fits cfg t v hok hw hf
+
+/-- The encoder only emits well-formed canonical items (so `cbor_roundtrip` applies to them). -/
+theorem encoded_values_well_formed (t : GoType) (v : GoVal) (c : Cbor) (hok : okType t = true)
+    (hf : fitsVal v = true) (h : encodeVal t v = some c) : c.wf = true :=
+  enc_wf t v c hok hf h
 
 /-- Struct level: the encoded entries of a struct, preceded by any entries with other keys, decode
 back to the same field values; fields dropped by `omitempty` come back as their (nil) zero value. -/
@@ -196,28 +202,25 @@ theorem tables_ok :
     okType tClassDefinition = true := by
   decide
 
-/-! ### Finding: a string that is not valid UTF-8 is written and can never be read
+/-! ### Strings that are not valid UTF-8 (defect found in round 1, fixed in /repo by c6c3e35)
 
-The full-strength statement "for every value the write path accepts" would be `value_roundtrip`
-with `wt ⟨false⟩` (no condition on strings) but decoding with the configured `⟨true⟩`:
+Go strings are arbitrary bytes and the encoder writes them as they are. The decoder option
+`DecOptions.UTF8` decides whether such a text string decodes. encoder/encoder.go now sets
+`UTF8DecodeInvalid` (`cfg = ⟨false⟩`): the round trip holds for EVERY value the write path accepts
+(`value_roundtrip_all_strings`, full strength). Under the library default (`cfg = ⟨true⟩`, the
+code before the fix) it holds only for valid UTF-8 (`value_roundtrip_strict_utf8`) and
+`invalid_utf8_stored_but_unreadable` is the proved counterexample; the harness replays the same
+receipt on the real code and reports the violation again should the option be lost. -/
 
-    theorem value_roundtrip_any_string (t v) (hok : okType t) (hw : wt ⟨false⟩ t v) :
-        ∃ c, encodeVal t v = some c ∧ decodeVal ⟨true⟩ t c = some v        -- FALSE, see below
-
-What is proved: the round trip for all values whose strings are valid UTF-8 under the strict
-decoder (`value_roundtrip` at `cfg = ⟨true⟩`), for ALL strings under the lenient decoder
-(`value_roundtrip` at `cfg = ⟨false⟩`, which is the behaviour of the proposed fix), and the
-negation witness for the strict decoder. -/
-
-/-- Strict decoder: round trip for values whose strings are valid UTF-8 (partial: see above). -/
-theorem value_roundtrip_strict_partial (t : GoType) (v : GoVal) (hok : okType t = true) (hw : wt ⟨true⟩ t v = true) :
-    ∃ c, encodeVal t v = some c ∧ decodeVal ⟨true⟩ t c = some v :=
-  rt_val ⟨true⟩ t v hok hw
-
-/-- Lenient decoder (`UTF8DecodeInvalid`): round trip for every value the encoder accepts. -/
-theorem value_roundtrip_lenient (t : GoType) (v : GoVal) (hok : okType t = true) (hw : wt ⟨false⟩ t v = true) :
+/-- The configured decoder (lenient): round trip for every value, no condition on strings. -/
+theorem value_roundtrip_all_strings (t : GoType) (v : GoVal) (hok : okType t = true) (hw : wt ⟨false⟩ t v = true) :
     ∃ c, encodeVal t v = some c ∧ decodeVal ⟨false⟩ t c = some v :=
   rt_val ⟨false⟩ t v hok hw
+
+/-- A strict decoder round-trips exactly the values whose strings are valid UTF-8 (`wt ⟨true⟩`). -/
+theorem value_roundtrip_strict_utf8 (t : GoType) (v : GoVal) (hok : okType t = true) (hw : wt ⟨true⟩ t v = true) :
+    ∃ c, encodeVal t v = some c ∧ decodeVal ⟨true⟩ t c = some v :=
+  rt_val ⟨true⟩ t v hok hw
 
 /-- The receipt `{Reverted: true, RevertReason: "\xff"}` (all else nil/zero). -/
 def badReceipt : GoVal :=
@@ -305,6 +308,26 @@ theorem timestamp_projection_agrees (cfg : DecCfg) (bs : Bytes) (hv : GoVal)
     getBlockHeaderTimestamp cfg bs = none ∨ getBlockHeaderTimestamp cfg bs = getField tHeader kTimestamp hv :=
   timestamp_agrees cfg bs hv h
 
+
+/-- … and on every header the node itself wrote it is never the error: the accessor returns the
+stored timestamp (the key is always present — `Timestamp` is not `omitempty` — and never null). -/
+theorem timestamp_projection_on_stored (cfg : DecCfg) (vs : List GoVal) (hw : wt cfg tHeader (.struct vs) = true)
+    (hf : fitsVal (.struct vs) = true) :
+    ∃ bs v, marshalVal tHeader (.struct vs) = some bs ∧ getField tHeader kTimestamp (.struct vs) = some v ∧
+      v ≠ .nil ∧ getBlockHeaderTimestamp cfg bs = some v :=
+  timestamp_on_stored cfg vs hw hf
+
+/-- General form of the above: a pointer-typed projection of a non-`omitempty`, non-nullable field
+always finds the stored field on encoder-written records. -/
+theorem pointer_projection_on_stored (cfg : DecCfg) (ts ps : List (Bytes × Bool × GoType)) (key : Bytes) (t : GoType)
+    (hok : okType (.struct ts) = true) (h1 : fieldType key ts = some t) (ho : fieldOm key ts = false)
+    (h2 : fieldType key ps = some (.ptr t)) (hnn : nonNull t = true) (hpc : projOKc ts ps = true)
+    (vs : List GoVal) (hw : wt cfg (.struct ts) (.struct vs) = true) :
+    ∃ es v, encodeVal (.struct ts) (.struct vs) = some (.map es) ∧
+      getField (.struct ts) key (.struct vs) = some v ∧ fieldOfItem cfg ps key (.map es) = some v ∧
+      (encodeVal t v).isSome = true :=
+  ptr_projection_on_stored cfg ts ps key t hok h1 ho h2 hnn hpc vs hw
+
 /-- `GetTransactionHashesByBlockNumber`, per record: the projection names the union of the fields
 of all five transaction types and holds `TransactionHash` by value; the record is tag-wrapped.
 Whichever transaction type the full decoder finds under the tag, the projection reads that
@@ -324,10 +347,10 @@ def encItem (t : GoType) (v : GoVal) : Bytes := (marshalVal t v).getD []
 
 /-- Transactions and receipts as typed values, written as a block, read back by (block, index)
 with the full decoders: what was stored — for every block size, every index, all five
-transaction kinds (values whose encodings respect CBOR's 64-bit size limits). -/
+transaction kinds. -/
 theorem stored_block_readback (cfg : DecCfg) (txs rcs : List GoVal)
-    (hT : ∀ a ∈ txs, wt cfg tTransaction a = true ∧ ∀ c, encodeVal tTransaction a = some c → c.wf = true)
-    (hR : ∀ a ∈ rcs, wt cfg tTransactionReceipt a = true ∧ ∀ c, encodeVal tTransactionReceipt a = some c → c.wf = true)
+    (hT : ∀ a ∈ txs, wt cfg tTransaction a = true ∧ fitsVal a = true)
+    (hR : ∀ a ∈ rcs, wt cfg tTransactionReceipt a = true ∧ fitsVal a = true)
     (h1 : txs.length < 18446744073709551616) (h2 : rcs.length < 18446744073709551616)
     (h3 : (concatEnc (encItem tTransaction) txs ++ concatEnc (encItem tTransactionReceipt) rcs).length < 18446744073709551616)
     (i : Nat) :
@@ -338,11 +361,11 @@ theorem stored_block_readback (cfg : DecCfg) (txs rcs : List GoVal)
       readBlob (Blob.build (encItem tTransaction) (encItem tTransactionReceipt) txs rcs).marshal
         (fun b => b.getRc (unmarshalVal cfg tTransactionReceipt) i) = .ok rcs[i]) := by
   have key : ∀ (t : GoType) (a : GoVal), okType t = true → wt cfg t a = true →
-      (∀ c, encodeVal t a = some c → c.wf = true) → unmarshalVal cfg t (encItem t a) = some a := by
-    intro t a hok hw hwf
-    obtain ⟨c, e1, e2, e3⟩ := rt_bytes cfg t a hok hw
-    simp only [encItem, e2, Option.getD_some]
-    exact e3 (hwf c e1)
+      fitsVal a = true → unmarshalVal cfg t (encItem t a) = some a := by
+    intro t a hok hw hf
+    obtain ⟨bs, e1, e2⟩ := rt_bytes_fits cfg t a hok hw hf
+    simp only [encItem, e1, Option.getD_some]
+    exact e2
   constructor
   · intro h
     exact blob_get_tx (encItem tTransaction) (encItem tTransactionReceipt) (unmarshalVal cfg tTransaction) txs rcs
@@ -350,6 +373,34 @@ theorem stored_block_readback (cfg : DecCfg) (txs rcs : List GoVal)
   · intro h
     exact blob_get_rc (encItem tTransaction) (encItem tTransactionReceipt) (unmarshalVal cfg tTransactionReceipt) txs rcs
       (fun a ha => key tTransactionReceipt a tables_ok.2.2.1 (hR a ha).1 (hR a ha).2) h1 h2 h3 i h
+
+
+/-! ## 6. Binary codecs and database keys (db/schema.go, core/class.go, core/accessors.go) -/
+
+/-- Block numbers, (number, index) pairs and the declared-class wrapper decode to what was encoded. -/
+theorem binary_roundtrips (n i : Nat) (cls : Bytes) (hn : n < 18446744073709551616) (hi : i < 18446744073709551616) :
+    decNumber (encNumber n) = some n ∧ decNumIndex (encNumIndex n i) = some (n, i) ∧
+    decDeclared (encDeclared n cls) = some (n, cls) :=
+  ⟨decNumber_enc n hn, decNumIndex_enc n i hn hi, decDeclared_enc n cls hn⟩
+
+/-- `ClassCasmHashMetadata`: `UnmarshalBinary (MarshalBinary m) = m` for all four shapes (declared
+with V2 / with V1, migrated or not). -/
+theorem casm_metadata_roundtrip (m : CasmMeta) (hd : m.declaredAt < 18446744073709551616)
+    (hm : m.migratedAt < 18446744073709551616) (h2 : m.v2.length = 32)
+    (h1 : ∀ h, m.v1 = some h → h.length = 32) : CasmMeta.unmarshal m.marshal = some m :=
+  casmMeta_roundtrip m hd hm h2 h1
+
+/-- Keys: within a bucket two block numbers never share a key — neither with the 8-byte big-endian
+keys (headers, state updates, commitments) nor with the variable-length CBOR keys of the
+block-transactions bucket —, hash-keyed entries differ when the hashes differ, and keys of
+different buckets differ. So a read of record X can only return what was written for X. -/
+theorem keys_injective (b b' n m : Nat) (s s' : Bytes) (hn : n < 18446744073709551616) (hm : m < 18446744073709551616) :
+    (keyByNumber b n = keyByNumber b m → n = m) ∧
+    (keyBlockTransactions n = keyBlockTransactions m → n = m) ∧
+    (keyByHash b s = keyByHash b s' → s = s') ∧
+    (b < 256 → b' < 256 → b ≠ b' → dbKey b s ≠ dbKey b' s') :=
+  ⟨keyByNumber_inj b n m hn hm, keyBlockTransactions_inj n m hn hm, dbKey_suffix_inj b s s',
+   fun h1 h2 h3 => dbKey_bucket_ne b b' s s' h1 h2 h3⟩
 
 /-! ## Non-vacuity -/
 
@@ -375,5 +426,9 @@ example : ((marshalVal tHeader exHeader).bind (fun bs => getBlockTransactionCoun
 -- a map value in canonical key order
 example : wt ⟨true⟩ (.map .felt (.ptr .felt)) (.map [(.felt 0 0 0 0, .nil), (.felt 5 0 0 0, .felt 1 1 1 1)]) = true := by decide
 example : projOK (fieldsOf tHeader) (fieldsOf pHeaderTimestamp) = false := by decide  -- *uint64 vs uint64: not the same type
+
+example : CasmMeta.unmarshal (CasmMeta.marshal ⟨5, List.replicate 32 7, 9, some (List.replicate 32 1)⟩) =
+    some ⟨5, List.replicate 32 7, 9, some (List.replicate 32 1)⟩ := by decide
+example : keyBlockTransactions 24 = [40, 0x18, 0x18] ∧ keyByNumber bBlockHeadersByNumber 258 = [8, 0, 0, 0, 0, 0, 0, 1, 2] := by decide
 
 end Juno.C07.Props
